@@ -848,6 +848,10 @@ func cmdCheck(prop, tier string, seed uint64, repo string) int {
 	}
 	fmt.Printf("property=%s tier=%s seed=%d runs=%d ok=%d wall=%.1fs build=%.1fs new_violations=%d known=%d\n", prop, tier, seed, len(bt.lines), ok, bt.wall.Seconds(), b.wall.Seconds(), len(newKeys), len(knownSeen))
 	for _, l := range bt.lines {
+		if l.Status == "harness-panic" {
+			fmt.Printf("INFRASTRUCTURE-ERROR run %d: panic inside the harness: %s\n", l.Index, l.Config)
+			return 2
+		}
 		if l.Status == "generator-error" {
 			fmt.Printf("INFRASTRUCTURE-ERROR run %d: the scenario generator produced an invalid scenario (%s); nothing is reported\n", l.Index, l.Config)
 			return 2
